@@ -28,7 +28,7 @@ func genURLSchema(r *Rng, o *Out) *jsonapi.Schema {
 		}
 		for _, a := range urlAttrNames {
 			if !bare && r.bool() {
-				_ = t.AddAttr(jsonapi.Attr{Name: a, Type: 1 + r.IntN(14), Nullable: r.bool()})
+				putAttr(&t, jsonapi.Attr{Name: a, Type: 1 + r.IntN(14), Nullable: r.bool()})
 			}
 		}
 		for _, rn := range urlRelNames {
@@ -38,17 +38,17 @@ func genURLSchema(r *Rng, o *Out) *jsonapi.Schema {
 					target = "ghost" // not in the schema: C07 speaks of every schema
 					o.stat("schema.dangling-rel")
 				}
-				_ = t.AddRel(jsonapi.Rel{FromType: names[i], FromName: rn, ToOne: r.bool(), ToType: target})
+				putRel(&t, jsonapi.Rel{FromType: names[i], FromName: rn, ToOne: r.bool(), ToType: target})
 			}
 		}
-		_ = s.AddType(t)
+		putType(s, t)
 	}
 	return s
 }
 
 // ---------- raw URL grammar ----------
 
-var idFrags = []string{"1", "abc", "a%3Fb", "a%2Fb", "x%20y", "%C3%A9", "a+b", "meta", "relationships", "a%26b", "a%23b", "%25"}
+var idFrags = []string{"1", "abc", ".", "..", "%2E%2E", "...", "a..b", "a%3Fb", "a%2Fb", "x%20y", "%C3%A9", "a+b", "meta", "relationships", "a%26b", "a%23b", "%25"}
 
 func genPath(r *Rng, s *jsonapi.Schema, o *Out) string {
 	tn := func() string {
